@@ -68,6 +68,32 @@ CHECKS = {
     technique="runtime monitor at a cfg-guarded hook (verif_transport_url): component oracle over the C13 grid plus random URIs",
     text="The private mapping the clients use is reached through the add-only hook and compared component-wise with the reference mapping (ipp->http, ipps->https, 631 when no port, explicit port kept, everything else unchanged, http/https untouched) over the full grid and random URIs. The port-less ipps -> 443 mapping is a listed known finding with an exact signature; any other discrepancy fails the check.",
     note="Hook: --cfg ancwrd1_ipp_rs_verif. Socket-level confirmation for explicit-port targets is part of C11."),
+
+ "C08": dict(
+    level="exploration", design="2/C08",
+    technique="runtime monitor: byte-for-byte stream oracle (collected stream vs to_bytes() ++ payload) under scripted payload sources, varying consumer buffers, manual executor and the real block_on bridge",
+    text="Each generated message is consumed through into_read and into_async_read with payload sources {none, blocking scripted reader, async scripted reader}, payloads from 0 B to MiBs delivered with random chunking, Interrupted and Pending (immediate / deferred wake, helper-thread wakes under the blocking bridge), and consumer read-buffer sizes varying per call from 1 B to 64 KiB; the collected bytes must equal to_bytes() of the same instance followed by exactly the payload, end with repeated clean EOF, and drain the source. Cross pairs (blocking payload via async, async payload via blocking) are part of every run.",
+    note="A blocking consumption that never returns is reported inconclusive after 300 s (cannot be decided on logical steps)."),
+ "C15": dict(
+    level="exploration", design="2/C15",
+    technique="runtime cost monitoring on deterministic step measures: counting global allocator (bytes, calls) and cachegrind instruction counts over doubling input families; incremental-ratio oracle",
+    text="14 doubling families (nesting with/without member names and with multi-valued members, set width, set of collections, attribute/group/member count, value/name length, four malformed floods), both parsers, sizes 2 KiB to 256 KiB (thorough 1 MiB) for the allocation measure and 4 KiB to 64 KiB (thorough 1 MiB) under cachegrind. For consecutive doublings the incremental ratio (c(4n)-c(2n))/(c(2n)-c(n)) must stay <= 2.6 (n log n passes, quadratic gives 4) and allocated bytes <= 256 KiB + 1024 n. Wall clock is never a verdict; a series stops at its first violating doubling so a quadratic tree is reported at KiB sizes within seconds.",
+    note="Instruction counts include process start-up and input generation (linear, cancelled by the incremental ratio). Only the families listed are covered."),
+ "C16": dict(
+    level="exploration", design="2/C16",
+    technique="runtime monitor by complete enumeration of the finite code domains against registry tables embedded in the harness (exhaustive: true)",
+    text="All 65536 16-bit values go through StatusCode::from_u16, IppHeader::status_code, is_success and Operation::from_u16, all 256 bytes through the delimiter and value tag enums, -4..65535 through the five attribute enums, and the tag emitted for every value kind is compared with the registry. A registered code must give the variant the registry names for it, any other code 'unknown' or a symbol naming no registered code, success exactly for the RFC 8011 successful codes, and every variant must cast back to the integer it was decoded from. The domain is finite and enumerated completely on every run.",
+    note="Trusted: the registry tables typed in from RFC 8010/8011, PWG 5100.1 and the CUPS specification; identifier comparison is modulo case and punctuation with listed aliases."),
+ "C17": dict(
+    level="exploration", design="2/C17",
+    technique="runtime monitor: three-valued reference decision vs is_printer_ready over an exhaustive small grid plus seeded random responses, each judged in memory and after encode->parse",
+    text="Responses over the grid status code x printer-state form x printer-state-reasons form (absent, every single keyword, blocking keyword at every position of sets of 2..6, informational-only sets) x unrelated look-alike attributes and groups are judged against the reference decision (must-error with the same status, must-be-false, must-be-true, unspecified), both built in memory and after reference encoding and library parsing so that the parser decides set versus single value. Thorough adds every one of the 65536 status codes.",
+    note="Suffix forms of blocking keywords (-warning/-report) and wrong-syntax states without a blocking reason are treated as unspecified, as the property states nothing about them."),
+ "C19": dict(
+    level="exploration", design="2/C19",
+    technique="model-based runtime monitor: ordered reference model stepped in lock-step with IppAttributes::add, compared after every operation; iterator traversal vs model",
+    text="All add-sequences of length <= 4 (thorough 5) over a 16-operation alphabet (4 group kinds x 2 names x 2 values) are run from the empty container and from two parser-produced containers with repeated and empty groups, comparing groups(), groups_of(kind) for all kinds after every add and into_groups() at the end with a Vec-based model; random sequences of up to 200 adds with G1 values extend this. Value traversal is compared with the model (set in order, collection in member-name order, scalar once, then None thrice) for every kind, wide and empty containers and random values.",
+    note="Enumeration is complete for the stated alphabet and lengths; beyond that sampling."),
 }
 
 REASON_TODO = "check not built yet in this revision of /verif (planned; see DESIGN.md section 2)"
